@@ -61,6 +61,16 @@ func structuralOffsets(f *hcl.File) map[string][]int {
 		}
 	}
 	walk(body, "top-")
+	// calls: inside the (possibly namespaced, possibly blank-separated) name and
+	// right behind the opening parenthesis (also of type declarations such as tuple())
+	hclsyntax.VisitAll(body, func(n hclsyntax.Node) hcl.Diagnostics {
+		if fc, ok := n.(*hclsyntax.FunctionCallExpr); ok {
+			nr := fc.NameRange
+			out["call-name"] = append(out["call-name"], nr.Start.Byte+(nr.End.Byte-nr.Start.Byte)/2, nr.End.Byte-1)
+			out["call-open"] = append(out["call-open"], fc.OpenParenRange.End.Byte)
+		}
+		return nil
+	})
 	for k := range out {
 		sort.Ints(out[k])
 	}
